@@ -254,9 +254,11 @@ def _nest_stmt(self, a):
 FnGen.nest_stmt = _nest_stmt
 
 
-def _gen_fn(draw, cfg, plain, steps, is_step, n_stmts, allow, n_params=None, kw=()):
+def _gen_fn(draw, cfg, plain, steps, is_step, n_stmts, allow, n_params=None, kw=(), first=None):
     n_params = 2 if is_step else (n_params if n_params is not None else draw(st.integers(1, 2)))
     g = FnGen(draw, cfg, plain, steps, is_step, n_params, kw)
+    if first:
+        g.stmt([first])
     for _ in range(n_stmts):
         g.stmt(allow)
     ret = ["pair", g.scalar(), g.scalar()] if is_step else g.scalar()
@@ -329,11 +331,14 @@ def programs(draw, discrete=False, max_sites=14, combinators=("call", "vmap", "s
     # mid-level function (depth 2)
     avail = [c for c in combinators if c != "cond" or cfg["cond_pairs"]]
     avail = [c for c in avail if c != "scan" or steps]
-    if draw(st.booleans()):
-        fn, sites = _gen_fn(draw, cfg, dict(plain), steps, False, draw(st.integers(1, 2)), ["draw"] + avail)
+    condm = force == "condm" and "cond" in combinators  # forced: a Cond over two mid-level functions that call sub-functions
+    if condm:
+        force = None
+    if draw(st.booleans()) or condm:
+        fn, sites = _gen_fn(draw, cfg, dict(plain), steps, False, draw(st.integers(1, 2)), ["draw"] + avail, first=("call" if condm else None))
         fns["M0"], plain["M0"] = fn, {"np": fn["np"], "kw": [], "sites": sites}
         order.append("M0")
-        if "cond" in combinators and draw(st.booleans()):
+        if "cond" in combinators and (draw(st.booleans()) or condm):
             # a Cond whose branches are mid-level functions: both branches call the same generative functions / combinators
             # at the same addresses (with different arguments), i.e. shared addresses below the first level of the branches
             fns["M0x"] = _perturb_fn(draw, fn)
@@ -352,6 +357,11 @@ def programs(draw, discrete=False, max_sites=14, combinators=("call", "vmap", "s
         g.body.append(["cond", c, ["v", a], ft, ff, [g.scalar() for _ in range(plain[ft]["np"])]] + ([{k: g.scalar(0) for k in plain[ft]["kw"]}] if plain[ft]["kw"] else []))
         g.vars.append((["v", c], "f"))
         g.n_sites += 1 + plain[ft]["sites"]
+    elif condm:
+        c = g.addr()
+        g.body.append(["cond", c, g.pred(), "M0", "M0x", [g.scalar() for _ in range(plain["M0"]["np"])]])
+        g.vars.append((["v", c], "f"))
+        g.n_sites += plain["M0"]["sites"]
     elif force == "detcall" and "D0" in plain:
         # a draw, a choice-free sub-call on it, and a draw that depends on the sub-call's return value
         a, c, b = g.addr(), g.addr(), g.addr()
